@@ -9,9 +9,9 @@ From Irismod Require Import Htlc.Model Htlc.Check Htlc.Proofs.
 
 Lemma wf_op_b_sound o : wf_op_b o = true -> wf_op o.
 Proof.
-  destruct o as [m| |]; simpl; try tauto. intros H.
-  apply andb_true_iff in H. destruct H as [H H3]. apply andb_true_iff in H. destruct H as [H1 H2].
-  apply negb_true_iff in H1, H2, H3. apply Z.eqb_neq in H1, H2, H3. auto.
+  destruct o as [m| | |]; simpl; try tauto; try discriminate. intros H.
+  apply andb_true_iff in H. destruct H as [H1 H2].
+  apply negb_true_iff in H1, H2. apply Z.eqb_neq in H1, H2. auto.
 Qed.
 
 Lemma params_ok_b_sound P : params_ok_b P = true -> params_ok P.
